@@ -131,9 +131,11 @@ def g1(run: Run, cy: CyProgram):
             a, b = idx[0]
             loops = {pp(l.a[0]): l for l in chain}
             if a not in loops or b not in loops:
-                run.oblige("G1", f"{kname}:domain", False)
-                run.add("G1", f"{kname}/domain", f"{f.module.relpath}:{st.line}",
-                        f"{kname}: store indices {idx[0]} are not both loop variables")
+                # the pairs are not enumerated by two nested for loops (a cursor
+                # advanced by hand, say): the covered domain is not derived
+                run.unknowns.append(f"G1: {f.where}: {kname} does not enumerate the pairs "
+                                    f"{idx[0]} with two nested for loops; coverage of the "
+                                    f"triangle not decided")
                 continue
             outer, inner = (a, b) if list(loops).index(a) < list(loops).index(b) else (b, a)
             orange = pp(loops[outer].a[1]).replace(" ", "")
